@@ -91,8 +91,7 @@ theorem words_join : ∀ ws : List (List Char), (∀ w ∈ ws, w ≠ [] ∧ ' ' 
 /-! ## structs -/
 
 theorem spec_dimension {c : Codec} (L : CodecLaws c) (d : Dimension) (h : dimOk d = true) (k : List Tree) :
-    dimension c (mkAttrs [("name", some d.name), ("uservalue", d.uservalue.map c.showF32),
-      ("xvalue", d.xvalue.map c.showF32), ("yvalue", d.yvalue.map c.showF32)], k) = some d := by
+    dimension c (mkAttrs (dimensionAttrs c d), k) = some d := by
   simp only [dimOk, Bool.and_eq_true] at h
   simp [dimension, number_eq, get_eq_attr, readOptF32_show L _ h.1.1, readOptF32_show L _ h.1.2,
     readOptF32_show L _ h.2]
@@ -110,7 +109,7 @@ theorem spec_location {c : Codec} (L : CodecLaws c) (l : List Dimension) (h : lo
 
 theorem spec_mapping {c : Codec} (L : CodecLaws c) (m : AxisMapping) (h1 : m.input.notNaN = true)
     (h2 : m.output.notNaN = true) (k : List Tree) :
-    mapping c (mkAttrs [("input", some (c.showF32 m.input)), ("output", some (c.showF32 m.output))], k) = some m := by
+    mapping c (mkAttrs (mapAttrs c m), k) = some m := by
   simp [mapping, required_eq, L.f32_rt _ h1, L.f32_rt _ h2]
 
 theorem spec_values {c : Codec} (L : CodecLaws c) (a : List (String × String)) (ov : Option (List F32))
@@ -129,22 +128,13 @@ theorem spec_values {c : Codec} (L : CodecLaws c) (a : List (String × String)) 
     rfl
 
 theorem spec_axis {c : Codec} (L : CodecLaws c) (a : Axis) (h : axisOk a = true) :
-    axis c (mkAttrs [("name", some a.name), ("tag", some a.tag), ("default", some (c.showF32 a.default)),
-      ("hidden", if a.hidden then some "true" else none),
-      ("minimum", a.minimum.map c.showF32), ("maximum", a.maximum.map c.showF32),
-      ("values", a.values.map (showValues c))], mapNodes c a.map) = some a := by
+    axis c (mkAttrs (axisAttrs c a), mapNodes c a.map) = some a := by
   simp only [axisOk, Bool.and_eq_true] at h
   obtain ⟨⟨⟨⟨h1, h2⟩, h3⟩, h4⟩, h5⟩ := h
-  have hv := spec_values L (mkAttrs [("name", some a.name), ("tag", some a.tag), ("default", some (c.showF32 a.default)),
-      ("hidden", if a.hidden then some "true" else none),
-      ("minimum", a.minimum.map c.showF32), ("maximum", a.maximum.map c.showF32),
-      ("values", a.values.map (showValues c))]) a.values (by simp)
+  have hv := spec_values L (mkAttrs (axisAttrs c a)) a.values (by simp)
       (by intro vs hvs; rw [hvs] at h4; exact h4)
-  have hh : flag (mkAttrs [("name", some a.name), ("tag", some a.tag), ("default", some (c.showF32 a.default)),
-      ("hidden", if a.hidden then some "true" else none),
-      ("minimum", a.minimum.map c.showF32), ("maximum", a.maximum.map c.showF32),
-      ("values", a.values.map (showValues c))]) "hidden" = some a.hidden := by
-    cases a.hidden <;> simp [flag, get_eq_attr]
+  have hh : flag (mkAttrs (axisAttrs c a)) "hidden" = some a.hidden := by
+    cases hhid : a.hidden <;> simp [flag, get_eq_attr, hhid]
   have hm : optionAll (mapping c) (kids "map" (mapNodes c a.map)) = some (a.map.getD []) ∧
       (∀ ms, a.map = some ms → ms ≠ []) := by
     cases hmap : a.map with
@@ -170,8 +160,7 @@ theorem spec_axis {c : Codec} (L : CodecLaws c) (a : Axis) (h : axisOk a = true)
 
 theorem spec_condition {c : Codec} (L : CodecLaws c) (x : Condition) (h1 : optOk x.minimum = true)
     (h2 : optOk x.maximum = true) (k : List Tree) :
-    condition c (mkAttrs [("name", some x.name), ("minimum", x.minimum.map c.showF32),
-      ("maximum", x.maximum.map c.showF32)], k) = some x := by
+    condition c (mkAttrs (conditionAttrs c x), k) = some x := by
   simp [condition, number_eq, get_eq_attr, readOptF32_show L _ h1, readOptF32_show L _ h2]
 
 theorem spec_conditionSet {c : Codec} (L : CodecLaws c) (s : ConditionSet)
@@ -185,11 +174,11 @@ theorem spec_conditionSet {c : Codec} (L : CodecLaws c) (s : ConditionSet)
   rfl
 
 theorem spec_substitution (s : Substitution) (k : List Tree) :
-    substitution (mkAttrs [("name", some s.name), ("with", some s.withName)], k) = some s := by
+    substitution (mkAttrs (subAttrs s), k) = some s := by
   simp [substitution, get_eq_attr]
 
 theorem spec_rule {c : Codec} (L : CodecLaws c) (r : Rule) (h : ruleOk r = true) :
-    rule c (mkAttrs [("name", r.name)], r.conditionSets.map (conditionSetNode c) ++ r.substitutions.map subNode)
+    rule c (mkAttrs (ruleAttrs r), r.conditionSets.map (conditionSetNode c) ++ r.substitutions.map subNode)
       = some r := by
   simp only [ruleOk, Bool.and_eq_true, List.all_eq_true] at h
   obtain ⟨⟨⟨_, _⟩, h3⟩, _⟩ := h
@@ -207,8 +196,8 @@ theorem spec_rulesNode {c : Codec} (L : CodecLaws c) (r : Rules) (h : r.rules.al
     (rest : List Tree) (hr : kids "rules" rest = []) : rules c (rulesNode c r :: rest) = some r := by
   simp only [List.all_eq_true] at h
   have : kids "rules" (rulesNode c r :: rest) =
-      [(mkAttrs [("processing", some (showProcessing r.processing))], r.rules.map (ruleNode c))] := by
-    simp [kids, rulesNode, hr]
+      [(mkAttrs (rulesAttrs r), r.rules.map (ruleNode c))] := by
+    simp only [kids, rulesNode, hr, if_true]
   unfold rules
   rw [this]
   simp only
@@ -217,8 +206,7 @@ theorem spec_rulesNode {c : Codec} (L : CodecLaws c) (r : Rules) (h : r.rules.al
   cases hp : r.processing <;> simp [get_eq_attr, showProcessing, hp] <;> (cases r; simp_all)
 
 theorem spec_source {c : Codec} (L : CodecLaws c) (s : Source) (h : locOk s.location = true) :
-    source c (mkAttrs [("familyname", s.familyname), ("stylename", s.stylename), ("name", s.name),
-      ("filename", some s.filename), ("layer", s.layer)], [locationNode c s.location]) = some s := by
+    source c (mkAttrs (sourceAttrs s), [locationNode c s.location]) = some s := by
   have := spec_location L s.location h [] rfl
   simp [source, get_eq_attr, this]
 
@@ -228,10 +216,10 @@ mutual
 theorem pv_spec {c : Codec} (L : CodecLaws c) : ∀ (v : PV) (t : Tree), pvStated v = true →
     serializeWithin c v = .ok t → plistObject c t = some v
   | .str s, t, _, e => by
-    simp only [serializeWithin, valueInner, Out.map, Out.ok.injEq] at e
+    simp only [serializeWithin, leafInner, Out.map, Out.ok.injEq] at e
     subst e; simp [plistObject, leafText_content]
   | .int i, t, h, e => by
-    simp only [serializeWithin, valueInner, Out.map, Out.ok.injEq] at e
+    simp only [serializeWithin, leafInner, Out.map, Out.ok.injEq] at e
     simp only [pvStated, Bool.and_eq_true, decide_eq_true_eq] at h
     subst e
     simp only [plistObject, leafText_content]
@@ -240,7 +228,7 @@ theorem pv_spec {c : Codec} (L : CodecLaws c) : ∀ (v : PV) (t : Tree), pvState
     · have := L.int_u64 i (by omega) h.2
       simp [this.1, this.2]
   | .real r, t, h, e => by
-    simp only [serializeWithin, valueInner, Out.map, Out.ok.injEq] at e
+    simp only [serializeWithin, leafInner, Out.map, Out.ok.injEq] at e
     simp only [pvStated] at h
     subst e; simp [plistObject, leafText_content, L.f64_rt r h]
   | .bool true, t, _, e => by
@@ -248,13 +236,13 @@ theorem pv_spec {c : Codec} (L : CodecLaws c) : ∀ (v : PV) (t : Tree), pvState
   | .bool false, t, _, e => by
     simp only [serializeWithin, Out.ok.injEq] at e; subst e; simp [plistObject]
   | .data d, t, _, e => by
-    simp only [serializeWithin, valueInner, Out.map, Out.ok.injEq] at e
+    simp only [serializeWithin, leafInner, Out.map, Out.ok.injEq] at e
     subst e; simp [plistObject, leafText_content, L.data_rt]
   | .date d, t, _, e => by
     cases hd : c.showDate d with
-    | none => simp [serializeWithin, valueInner, Out.map, hd] at e
+    | none => simp [serializeWithin, leafInner, Out.map, hd] at e
     | some s =>
-      simp only [serializeWithin, valueInner, Out.map, hd, Out.ok.injEq] at e
+      simp only [serializeWithin, leafInner, Out.map, hd, Out.ok.injEq] at e
       subst e; simp [plistObject, leafText_content, L.date_rt d s hd]
   | .arr xs, t, h, e => by
     simp only [pvStated] at h
